@@ -21,12 +21,16 @@ def shift1(v, by=1):
     return np.asarray(v, dtype=float) + by
 
 
-NAMESPACE = {"dbl": dbl, "shift1": shift1}
+def tag(v):  # user function producing a categorical (strings) from a string column, row-wise
+    return pd.Series([str(a) + "_t" for a in v], index=getattr(v, "index", None), dtype="str")
+
+
+NAMESPACE = {"dbl": dbl, "shift1": shift1, "tag": tag}
 
 
 class Atom:
     def __init__(self, text, kind, vars_, name=None, fn=None, width=1, stateful=False, pointwise=True,
-                 coding="treatment", ref=None, col=None, levels_from=None, explicit_levels=None):
+                 coding="treatment", ref=None, col=None, levels_from=None, explicit_levels=None, level_map=None):
         self.text = text
         self.name = name or text
         self.kind = kind  # 'num' | 'cat'
@@ -39,6 +43,7 @@ class Atom:
         self.ref = ref
         self.col = col  # cat: the frame column holding the level of each row
         self.explicit_levels = explicit_levels
+        self.level_map = level_map
 
     # -- numeric ----------------------------------------------------------------------------
     def values(self, train, df=None):
@@ -49,9 +54,13 @@ class Atom:
     def levels(self, meta):
         if self.explicit_levels is not None:
             return list(self.explicit_levels)
+        if self.level_map is not None:
+            return sorted(self.level_map(v) for v in meta[self.col]["levels"])
         return list(meta[self.col]["levels"])
 
     def rowlevels(self, df):
+        if self.level_map is not None:
+            return [self.level_map(v) for v in df[self.col].tolist()]
         return df[self.col].tolist()
 
     def __repr__(self):
@@ -101,7 +110,11 @@ NUM_ATOMS = {
     # multi-column stateful transforms: no closed-form oracle here (C14 owns their values)
     "bs(x, df=4)": dict(vars_=["x"], stateful=True, width=4, fn=None),
     "bs(z, df=5, degree=2)": dict(vars_=["z"], stateful=True, width=5, fn=None),
+    "bs(x, knots=kn_x)": dict(vars_=["x"], stateful=True, width=6, fn=None),
+    "bs(x, knots=kn_x, degree=2, intercept=True)": dict(vars_=["x"], stateful=True, width=6, fn=None),
+    "bs(z, df=4, lower_bound=-10, upper_bound=20)": dict(vars_=["z"], stateful=True, width=4, fn=None),
     "poly(x, 2)": dict(vars_=["x"], stateful=True, width=2, fn=None),
+    "poly(x, 4)": dict(vars_=["x"], stateful=True, width=4, fn=None),
     "poly(z, 3, raw=True)": dict(vars_=["z"], stateful=True, width=3,
                                  fn=lambda t, d: np.column_stack([d["z"].to_numpy(dtype=float) ** k for k in (1, 2, 3)])),
 }
@@ -121,6 +134,12 @@ def cat_atom(text, meta):
         return Atom(text, "cat", [text], col=text)
     if text == "`c:1`":
         return Atom(text, "cat", ["c:1"], col="c:1", name="c:1")
+    m = re.fullmatch(r"I\((\w+)\)", text)
+    if m:  # a plain call returning the (string) column: categorical produced by a call
+        return Atom(text, "cat", [m.group(1)], col=m.group(1))
+    m = re.fullmatch(r"tag\((\w+)\)", text)
+    if m:  # user function returning new strings
+        return Atom(text, "cat", [m.group(1)], col=m.group(1), level_map=lambda v: str(v) + "_t")
     m = re.fullmatch(r"C\((\w+)\)", text)
     if m:
         return Atom(text, "cat", [m.group(1)], col=m.group(1))
@@ -188,6 +207,7 @@ def case_frame(fr):
 
 def namespace(meta):
     ns = dict(NAMESPACE)
+    ns["kn_x"] = [-0.4, 0.0, 0.3]  # interior knots for x ~ N(0, 1); small frames may not cover them (counted)
     for col, mt in meta.items():
         if "levels" in mt:
             ns["lv_" + re.sub(r"\W", "_", col)] = list(reversed(mt["levels"]))
@@ -281,14 +301,16 @@ PROFILES = {
     # what C04 judges: numeric variables / pointwise calls and treatment coded factors
     "plain": dict(
         num=["x", "z", "w", "cnt", "`col 1`", "np.log(w)", "I(x ** 2)", "{x * 2}", "dbl(x)", "I(x + z)"],
-        cat=["s", "h", "o", "cu", "co", "C(k)", "`c:1`", "C(s)", "T(h)"],
+        cat=["s", "h", "o", "cu", "co", "C(k)", "`c:1`", "C(s)", "T(h)", "I(s)", "tag(h)"],
         fac=["g", "g2", "s", "co", "C(k)", "cu"],
     ),
     "stateful": dict(
         num=["x", "z", "w", "np.log(w)", "center(x)", "scale(x)", "standardize(z)", "center(np.log(w))",
              "I(center(x) ** 2)", "scale(center(z))", "bs(x, df=4)", "bs(z, df=5, degree=2)", "poly(x, 2)",
+             "bs(x, knots=kn_x)", "bs(x, knots=kn_x, degree=2, intercept=True)",
+             "bs(z, df=4, lower_bound=-10, upper_bound=20)", "poly(x, 4)",
              "poly(z, 3, raw=True)", "dbl(x)", "{x * 2}", "shift1(z, by=3)"],
-        cat=["s", "h", "o", "cu", "co", "C(k)", "C(s)", "T(h)", "S(s)", "C(h, Sum)", "`c:1`"],
+        cat=["s", "h", "o", "cu", "co", "C(k)", "C(s)", "T(h)", "S(s)", "C(h, Sum)", "`c:1`", "I(s)", "tag(h)"],
         fac=["g", "g2", "s", "co", "C(k)", "cu"],
     ),
 }
